@@ -86,6 +86,14 @@ func (s *Sim) extraSetup() {
 	if cfg.KAPreCancel {
 		cancel()
 		s.log(Rec{Kind: "kacancel", S: "pre"})
+	} else if cfg.KACancelUs > 0 && cfg.KADeadline {
+		// the parent context has a deadline of its own (no event of the
+		// simulator coincides with it: the record is written now)
+		d := time.Duration(us(cfg.KACancelUs)+499) - time.Duration(s.nowNs())
+		cancel()
+		ctx, cancel = context.WithTimeout(context.Background(), d)
+		s.ka.cancel = cancel
+		s.log(Rec{Kind: "kacancel", S: "deadline", V: us(cfg.KACancelUs) + 499})
 	} else if cfg.KACancelUs > 0 {
 		s.at(us(cfg.KACancelUs)+499, "kacancel", func() {
 			s.log(Rec{Kind: "kacancel"})
@@ -158,6 +166,7 @@ func genKeepAlive(r *Rng, prop string) *Scenario {
 	switch r.weighted(5, 3, 1) {
 	case 1:
 		cfg.KACancelUs = r.between(0, total/u*10)*u/10 + u/3
+		cfg.KADeadline = r.chance(0.4)
 	case 2:
 		cfg.KAPreCancel = true
 	}
